@@ -275,16 +275,24 @@ func AssembleFile(ctx context.Context, name string, idx Index, s Store, seeds []
 	pb.Start()
 	defer pb.Finish()
 
+	var interrupted bool
 loop:
 	for _, segment := range plan {
 		verifYield("assemble.feed")
 		select {
 		case <-ctx.Done():
+			interrupted = true
 			break loop
 		case in <- Job{segment.indexSegment, segment.source}:
 		}
 	}
 	close(in)
 
-	return stats, g.Wait()
+	if err := g.Wait(); err != nil {
+		return stats, err
+	}
+	if interrupted { // stopped early without a worker failing, not everything was written
+		return stats, Interrupted{}
+	}
+	return stats, nil
 }
